@@ -14,6 +14,7 @@ def build(src, workdir):
     env_text(u)
     u.add("use vstd::arithmetic::div_mod::*;")
     u.add(spec_text('bits.vrs'))
+    u.add(spec_text('affine.vrs'))
     # scalar representation type: real struct; its limb view
     t = u.real_item('fr', 'struct', r'struct FrRepr\b', derive='Clone, Copy')
     u.add(re.sub(r'pub\((super|crate)\)', 'pub', t))
@@ -21,7 +22,6 @@ def build(src, workdir):
 impl AsRefU64 for [u64; 2] {{ open spec fn limbs(&self) -> Seq<u64> {{ self@ }} }}
 impl AsRefU64 for [u64; 4] {{ open spec fn limbs(&self) -> Seq<u64> {{ self@ }} }}
 impl AsRefU64 for [u64; 8] {{ open spec fn limbs(&self) -> Seq<u64> {{ self@ }} }}
-pub open spec fn RORDER() -> int {{ {hex(RORDER)}int }}
 pub struct Fr {{ pub dummy: u8 }}
 impl Fr {{
     // PrimeField::char(): the modulus of Fr (value checked as a closed term in unit `consts`)
@@ -65,8 +65,8 @@ impl Fr {{
         u.add(f"""    // the curve coefficient b (value of the constant checked as a closed term in unit `consts`)
     #[verifier::external_body]
     pub fn get_coeff_b() -> (ret: {G['B']}) ensures ret.v() == {bval} {{ unimplemented!() }}
-    pub open spec fn on_curve_spec(&self) -> bool {{ self.infinity || {sq('self.y.v()')} == {add}({mul}({sq('self.x.v()')}, self.x.v()), {bval}) }}
-    pub open spec fn in_subgroup_spec(&self) -> bool {{ self.on_curve_spec() && smul(RORDER(), self.pt()) == gzero() }}""")
+    pub open spec fn on_curve_spec(&self) -> bool {{ a{g[1]}_on_curve(self.a()) }}
+    pub open spec fn in_subgroup_spec(&self) -> bool {{ a{g[1]}_in_subgroup(self.a()) }}""")
         u.add(u.real_fn(G['mod'], f'impl {aff}', 'is_on_curve', "    ensures ret == self.on_curve_spec()", vis='pub'))
         u.add(u.real_fn(G['mod'], f'impl {aff}', 'is_in_correct_subgroup_assuming_on_curve',
                         "    ensures ret == (smul(RORDER(), self.pt()) == gzero())", vis='pub'))
